@@ -21,6 +21,7 @@ import (
 
 	"github.com/xelaj/mtproto/internal/encoding/tl"
 	"github.com/xelaj/mtproto/internal/mtproto/objects"
+	"github.com/xelaj/mtproto/zverif/freepass"
 	"github.com/xelaj/mtproto/zverif/ref/tlw"
 	"github.com/xelaj/mtproto/zverif/tlx"
 	"github.com/xelaj/mtproto/zverif/vr"
@@ -341,6 +342,7 @@ func main() {
 		var r struct {
 			Entry, Case, Data_hex string
 		}
+		freepass.MaybeReplay(run)
 		run.LoadReplay(&r)
 		fmt.Println("replay of", r.Entry, r.Case, "— re-run the quick tier; the case id is deterministic")
 		run.Finish()
@@ -410,6 +412,7 @@ func main() {
 		}(s)
 	}
 	wg.Wait()
+	freepass.Run(run, run.ID, freepass.Rounds(run))
 	run.Set("mutated_inputs", total)
 	run.Sample(map[string]any{"case": "telegram.PollResults|seed0|word3=str-header-16MiB", "entry": "DecodeUnknownObject"})
 	run.Sample(map[string]any{"case": "msgs_ack|count=0x7fffffff", "entry": "DecodeUnknownObject"})
